@@ -277,19 +277,19 @@ func TestC09_Enumerated(t *testing.T) {
 	rt.Note("enumerated_scope", fmt.Sprintf("every catalogue row x params x variant x scripts 1..n (n <= %d) x endings x upstream marker {none, ContextWithValue, ContextMap} x 4 context kinds (rotating)", maxN))
 }
 
-func TestC09_ChainsRandom(t *testing.T) {
-	rapid.Check(t, func(t *rapid.T) {
-		n := rapid.IntRange(2, 4).Draw(t, "chainLen")
-		links := make([]cat.Link, n)
-		for i := range links {
-			links[i] = genLink(t, true)
-		}
-		if chainDiverges(links) {
-			return
-		}
-		c := c09Case{Links: links, Script: seqScript(rapid.IntRange(0, 6).Draw(t, "n"), rapid.SampledFrom([]byte{'C', 'E'}).Draw(t, "end")),
-			Pre: rapid.SampledFrom([]string{"", "ContextWithValue"}).Draw(t, "pre"), Ctx: rapid.SampledFrom([]string{"value", "cancel", "deadline", "custom"}).Draw(t, "ctx")}
-		c09Run(t, c)
-		rt.Case(caseKey("ctxchain", fmt.Sprint(links), c.Script, c.Pre, c.Ctx), true, "chain", func() any { return c })
-	})
+func TestC09_ChainsRandom(t *testing.T) { rapid.Check(t, propC09ChainsRandom) }
+
+func propC09ChainsRandom(t *rapid.T) {
+	n := rapid.IntRange(2, 4).Draw(t, "chainLen")
+	links := make([]cat.Link, n)
+	for i := range links {
+		links[i] = genLink(t, true)
+	}
+	if chainDiverges(links) {
+		return
+	}
+	c := c09Case{Links: links, Script: seqScript(rapid.IntRange(0, 6).Draw(t, "n"), rapid.SampledFrom([]byte{'C', 'E'}).Draw(t, "end")),
+		Pre: rapid.SampledFrom([]string{"", "ContextWithValue"}).Draw(t, "pre"), Ctx: rapid.SampledFrom([]string{"value", "cancel", "deadline", "custom"}).Draw(t, "ctx")}
+	c09Run(t, c)
+	rt.Case(caseKey("ctxchain", fmt.Sprint(links), c.Script, c.Pre, c.Ctx), true, "chain", func() any { return c })
 }
